@@ -114,14 +114,19 @@ class Patch:
             setattr(obj, name, val)
 
 
-SETUPS = ("local-shared", "cluster-shared", "cluster-copies")
+SETUPS = ("local-shared", "cluster-shared", "cluster-copies",
+          # history: an earlier attempt for the SAME object wrote a part (its upload id was published) and ended without
+          # finalise; a new writer is created as a retry and its workers race for the first write
+          "local-shared-retry", "cluster-shared-retry", "cluster-copies-retry")
 
 
 def make_system(setup: str, nthreads: int, with_finalise: bool):
     def make(prefix):
         s = sched.Sched(prefix, [S3_FILE], exclude_funcs=("__dask_tokenize__",))
         s3 = FakeS3(s)
-        client = None if setup == "local-shared" else FakeClient(s)
+        retry = setup.endswith("-retry")
+        base_setup = setup[: -len("-retry")] if retry else setup
+        client = None if base_setup == "local-shared" else FakeClient(s)
         p = Patch()
         p.set(_s3, "Lock", lambda: sched.FakeLock(s, "local"))
         p.set(_s3, "_state", {})
@@ -130,14 +135,36 @@ def make_system(setup: str, nthreads: int, with_finalise: bool):
         p.set(distributed, "Lock", FakeDLock)
         p.set(distributed, "Variable", FakeVariable)
         try:
-            mpu = _s3.MultiPartUpload("bucket", "key.tif")
-            writer = mpu.writer({"ContentType": "image/tiff"}, client=client)  # prep_client when clustered
-            writers = [copy.deepcopy(writer) if setup == "cluster-copies" else writer for _ in range(nthreads)]
+            writers = []
+            pre = {"done": not retry}
+            ev0 = object()
+            s.mark = 0
+
+            def new_writers():
+                mpu = _s3.MultiPartUpload("bucket", "key.tif")
+                writer = mpu.writer({"ContentType": "image/tiff"}, client=client)  # prep_client when clustered
+                writers[:] = [copy.deepcopy(writer) if base_setup == "cluster-copies" else writer for _ in range(nthreads)]
+
+            def prelude():
+                # attempt 1 (sequential: nothing else is enabled while it runs)
+                mpu1 = _s3.MultiPartUpload("bucket", "key.tif")
+                w1 = mpu1.writer({"ContentType": "image/tiff"}, client=client)
+                w1 = copy.deepcopy(w1) if base_setup == "cluster-copies" else w1
+                w1(1, b"y" * 8)
+                s.mark = len(s3.calls)
+                new_writers()  # attempt 2: the retry
+                pre["done"] = True
+                s.wake(ev0)
+
+            if not retry:
+                new_writers()
             done = {"n": 0, "receipts": {}}
             ev = object()
 
             def body(k):
                 def run():
+                    while not pre["done"]:
+                        s.block(ev0)
                     rr = writers[k](k + 1, b"x" * 8)
                     done["receipts"][k] = rr
                     done["n"] += 1
@@ -153,6 +180,8 @@ def make_system(setup: str, nthreads: int, with_finalise: bool):
 
                 return run
 
+            if retry:
+                s.spawn(prelude, "prelude")
             for k in range(nthreads):
                 s.spawn(body(k), f"w{k}")
             s.run()
@@ -242,19 +271,21 @@ def judge(x: sched.Sched, setup: str, nthreads: int, with_finalise: bool):
         if site is None:
             raise err  # harness bug
         out.append((f"worker-exception:{type(err).__name__}@{site}:{setup}", f"{name}: {type(err).__name__}: {err}"))
-    creates = [c for c in x.s3.calls if c[0] == "create"]
+    calls = x.s3.calls[getattr(x, "mark", 0):]  # for retries: what the NEW writer's workers did
+    creates = [c for c in calls if c[0] == "create"]
     if len(creates) != 1:
-        out.append((f"initiations:{len(creates)}:{setup}", f"create_multipart_upload called {len(creates)} times: {x.s3.calls}"))
+        out.append((f"initiations:{len(creates)}:{setup}", f"create_multipart_upload called {len(creates)} times: {calls}"
+                                                           + (f" (earlier attempt: {x.s3.calls[:x.mark]})" if getattr(x, "mark", 0) else "")))
     if creates:
         uid = creates[0][1]
-        bad = [c for c in x.s3.calls if c[0] in ("part", "complete") and uid not in c]
+        bad = [c for c in calls if c[0] in ("part", "complete") and uid not in c]
         if len(creates) == 1 and bad:
             out.append((f"wrong-upload-id:{setup}", f"{bad} under upload {uid}"))
-    nparts = len([c for c in x.s3.calls if c[0] == "part"])
+    nparts = len([c for c in calls if c[0] == "part"])
     if not out and nparts != nthreads:
         out.append((f"parts-missing:{setup}", f"{nparts} parts uploaded by {nthreads} workers"))
     if with_finalise and not out:
-        comp = [c for c in x.s3.calls if c[0] == "complete"]
+        comp = [c for c in calls if c[0] == "complete"]
         if len(comp) != 1 or comp[0][2] != tuple(range(1, nthreads + 1)):
             out.append((f"complete:{setup}", f"{comp}"))
         if x.client is not None and not x.client.deleted:
@@ -320,7 +351,9 @@ NPART = 8
 def sched_cases(tier):
     # (setup, threads, with_finalise, preemption bound, part of the schedule tree)
     for setup in SETUPS:
-        if tier == "quick":
+        if tier == "quick" and setup.endswith("-retry"):
+            base = [(setup, 2, True, 1), (setup, 3, False, 1)]
+        elif tier == "quick":
             base = [(setup, 2, False, 2), (setup, 2, True, 2), (setup, 3, False, 1)]
         else:
             base = [(setup, 2, False, 3), (setup, 2, True, 3), (setup, 3, False, 2), (setup, 3, True, 2)]
@@ -407,9 +440,10 @@ def run_sink(case):
 
 
 LIMITS = {
-    "min_write_sz": (1, 4096 * 3),
-    "max_write_sz": (1 << 20, 1 << 33),
-    "min_part": (1, 7),
+    # 0 is a legitimate minimum (no lower bound / zero-based part numbers) and must be reported as configured
+    "min_write_sz": (0, 1, 4096 * 3),
+    "max_write_sz": (1024, 1 << 20, 1 << 33),
+    "min_part": (0, 1, 7),
     "max_part": (100, 9999),
 }
 
@@ -437,12 +471,17 @@ def run_limits(case):
     kw = dict(case)
     sink = _mpu_fs.MPUFileSink("/nonexistent/out.bin", **kw)
     defaults = dict(min_write_sz=4096, max_write_sz=5 * (1 << 30), min_part=1, max_part=10_000)
-    for name in LIMITS:
-        want = kw.get(name, defaults[name])
-        got = getattr(sink, name)
-        if got != want:
-            r.fail(f"limits:filesink:{name}", f"MPUFileSink(**{kw}).{name} == {got}, configured/default {want}")
-    if not r.fails and not (sink.max_write_sz > sink.min_write_sz and sink.max_part > sink.min_part):
+    import pickle  # pylint: disable=import-outside-toplevel
+
+    for who, obj in (("sink", sink), ("pickled-copy", pickle.loads(pickle.dumps(sink)))):
+        for name in LIMITS:
+            want = kw.get(name, defaults[name])
+            got = getattr(obj, name)
+            if got != want:
+                r.fail(f"limits:filesink:{name}" + ("" if who == "sink" else ":pickled-copy") + (":zero" if want == 0 else ""),
+                       f"MPUFileSink(**{kw}) [{who}].{name} == {got}, configured/default {want}")
+    configured_ok = kw.get("max_write_sz", defaults["max_write_sz"]) > kw.get("min_write_sz", defaults["min_write_sz"])
+    if not r.fails and configured_ok and not (sink.max_write_sz > sink.min_write_sz and sink.max_part > sink.min_part):
         r.fail("limits:filesink:max<=min", f"{kw}")
     return r
 
